@@ -1,4 +1,4 @@
-// finding=F141 property=C11 status=known kind=must-reject
+// finding=F141 property=C11 status=fixed kind=must-reject
 // arrayLength(&o) with o a fixed-size array (array<u32, 8>) is accepted; WGSL requires a pointer to a runtime-sized array, and the SPIR-V backend then emits OpArrayLength on a struct member that is not a runtime array
 @group(0) @binding(0) var<storage, read_write> o: array<u32, 8>;
 @compute @workgroup_size(1) fn main() { o[1] = arrayLength(&o); }
